@@ -408,6 +408,11 @@ func genOpt(rng *rand.Rand, s *Source, kind string, wantNoop bool) Opt {
 		if kind == "file-tar-time" {
 			o.S1 = pick(rng, "inner.tar", "inner.tar", "absent.tar")
 		}
+		if wantNoop && kind == "layer-time" && s.UniformTime && noLayerFile && rng.Intn(2) == 0 {
+			// every entry already carries exactly this time: nothing is to be changed, no layer to be repackaged
+			o.Set, o.Noop = tUniformStr, true
+			break
+		}
 		if wantNoop && (kind == "config-time" || noLayerFile) {
 			// nothing is after 2030, so nothing is to be changed
 			o.Set, o.Aft, o.Noop = tFuture, tLate, true
